@@ -141,6 +141,31 @@ def run_literals(rep):
     rep.merge(part.result())
 
 
+# string literals (arguments of functions with string parameters): letters, blanks, text that reads as an identifier declared in the
+# scope / as a number / as an operator expression, characters outside ASCII (2, 3 and 4 bytes in UTF-8), backslashes
+STRINGS = ["s", "abc", "a b", "a", "arr", "fn0", "1", "1.5", "a + b", "a, b", "true", "x'", "Z\u00fcrich", "\u20ac", "Malm\u00f6 to \u00c5rhus",
+           "\U0001F600", "(", ")", "a)", "// c", "/* c */", "a\\\\b", "a\\b", "'", "back\\", 'a\\"b', '\\"', 'q\\"']
+STRING_CTX = {"kind": "decl", "text": G.DECL + " int sfn(const string s) { return 1; } bool sknown(const string s, int n, const string t) { return true; }"}
+
+
+def run_strings(rep):
+    part = engine.Part()
+    w = engine.worker("fast")
+    items = []
+    for st in STRINGS:
+        q = '"%s"' % st
+        items += ["sfn ( %s )" % q, "a + sfn ( %s )" % q, "sknown ( %s , a , %s )" % (q, q), "sknown ( %s , sfn ( %s ) , \"abc\" ) && p" % (q, q),
+                  "a = sfn ( %s )" % q]
+    res = call(w, "exprs", STRING_CTX, items, typecheck=True)
+    for text, r in zip(items, res):
+        part.count()
+        rp = {"op": "exprs", "ctx": STRING_CTX, "items": [text], "print": True}
+        if engine.check_crash(part, PID, r, text, rp):
+            continue
+        judge(part, "string-literal", text, r, rp, "string")
+    rep.merge(part.result())
+
+
 # ---- queries ------------------------------------------------------------------------------------------
 QMODEL_DECL = "int a, b; clock x, y; bool p, q; int arr[3]; double z; broadcast chan ch; hybrid clock hx;"
 POOL = ["1", "1.5", "a", "a + b", "a < b", "p && q", "p || q", "! p", "p ? a : b", "P.L1", "arr [ a ]",
@@ -307,6 +332,7 @@ def main():
     for res in engine.pmap(run_shard, shards):
         rep.merge(res)
     run_literals(rep)
+    run_strings(rep)
     for res in engine.pmap(run_queries, [(i, n) for i in range(n)]):
         rep.merge(res)
     for res in engine.pmap(run_dynamic, [(i, n) for i in range(n)]):
